@@ -76,7 +76,12 @@ def _build(spec):
             except Exception:
                 pass
             c2 = dict(p["cfg"]); c2["kseed"] = p["cfg"].get("kseed", p["cfg"].get("seed", 1))
-            r2 = smcdrv.run_smc(c2, ids=ids, role="repeat")
+            if p.get("same_object"):
+                # the second run is made on the *same sampler object* with every random source re-seeded
+                c2["reseed_all"] = True
+                r2 = smcdrv.run_smc(c2, ids=ids, role="repeat", reuse=r1)
+            else:
+                r2 = smcdrv.run_smc(c2, ids=ids, role="repeat")
             g = smcdrv.project_group(spec["id"], [r1, r2])
         elif b == "resume":
             g = _build_resume(spec["id"], p)
@@ -689,7 +694,11 @@ def corpus_repeat(tier, seed, rnd):
                  precond=rnd.choice(["none", "default", "affine"]))
         if rnd.random() < 0.3:
             c["n_final"] = c["N"] * 2
-        specs.append(_mk(i, "repeat", {"cfg": c}))
+        pp = {"cfg": c}
+        if i % 3 == 2:
+            pp["same_object"] = True
+            c["rng_route"] = "init" if i % 2 else "sample"
+        specs.append(_mk(i, "repeat", pp))
     return specs
 
 
